@@ -19,6 +19,10 @@ FULL STATEMENT: `roundtrip_iso` at the end of this file — for every `m` of the
 `InSpace` (Iso7.lean: the conjunction of fifteen named, decidable hypotheses, all evaluated by the
 driver on every generated case) and every choice of scope labels,
 `∃ f, IsoVia f (strip m) (fromDmrs chosen (fromMrs m))`.
+`roundtrip_iso` still assumes that the way back succeeds (`h2`) and states two hypotheses on the
+DMRS of the first conversion (`ScopesHeld m d`, `QuantHead m d`); PropsSrc.lean proves the success
+(`roundtrip_total`, `roundtrip_iso_total`) and restates the theorem from predicates of the source
+alone (`roundtrip_iso_src` on `InSpaceSrc`).
 `roundtrip_iso_partial` (kept) is the earlier result on the fragment `NoHoleSpace` — no quantifiers
 and no argument constrained by a handle constraint.
 The two pieces the general theorem needed beyond the fragment:
